@@ -347,26 +347,58 @@ func paramOf(fn *ssa.Function, idx int) *ssa.Parameter {
 // at the end of the corresponding predecessor block.
 type assign struct {
 	Val ssa.Value
-	At  ssa.Instruction // where the assignment is decided (the store itself, or the end of the phi's predecessor)
+	At  ssa.Instruction   // where the assignment is decided (the store itself, or the end of the phi's predecessor)
+	Via []ssa.Instruction // outer decision points passed on the way (nested phis), outermost first
+	Edg []ssax.Guard      // conditional edges that lead straight into a phi on the way
 	St  *ssa.Store
+}
+
+// guards of an assignment: the conditional edges dominating every decision point on its way.
+func (a assign) guards() []ssax.Guard {
+	out := append([]ssax.Guard(nil), a.Edg...)
+	for _, v := range a.Via {
+		out = append(out, ssax.Guards(v)...)
+	}
+	return append(out, ssax.Guards(a.At)...)
 }
 
 func expandStores(sts []*ssa.Store) []assign {
 	var out []assign
+	var via []ssa.Instruction
+	var edg []ssax.Guard
 	var exp func(st *ssa.Store, v ssa.Value, at ssa.Instruction, depth int)
 	exp = func(st *ssa.Store, v ssa.Value, at ssa.Instruction, depth int) {
-		phi, ok := v.(*ssa.Phi)
+		inner := v
+		for {
+			if cv, isC := inner.(*ssa.Convert); isC {
+				inner = cv.X
+				continue
+			}
+			break
+		}
+		phi, ok := inner.(*ssa.Phi)
 		if !ok || depth > 3 || phi.Block() != at.Block() && !phi.Block().Dominates(at.Block()) {
-			out = append(out, assign{v, at, st})
+			out = append(out, assign{Val: v, At: at, Via: append([]ssa.Instruction(nil), via...), Edg: append([]ssax.Guard(nil), edg...), St: st})
 			return
 		}
 		for i, e := range phi.Edges {
 			pred := phi.Block().Preds[i]
 			if len(pred.Instrs) == 0 {
-				out = append(out, assign{e, at, st})
+				out = append(out, assign{Val: e, At: at, Via: append([]ssa.Instruction(nil), via...), Edg: append([]ssax.Guard(nil), edg...), St: st})
 				continue
 			}
+			via = append(via, at)
+			ne := len(edg)
+			if ifi, isIf := pred.Instrs[len(pred.Instrs)-1].(*ssa.If); isIf && pred.Succs[0] != pred.Succs[1] {
+				for k, sc := range pred.Succs {
+					if sc == phi.Block() {
+						edg = append(edg, ssax.Guard{Cond: ifi.Cond, Branch: k == 0, If: ifi})
+					}
+				}
+			}
 			exp(st, e, pred.Instrs[len(pred.Instrs)-1], depth+1)
+			via = via[:len(via)-1]
+			edg = edg[:ne]
 		}
 	}
 	for _, st := range sts {
